@@ -165,7 +165,12 @@ func genSeqPlan(r *rand.Rand, focus string) *ProxyPlan {
 			res.Expires = ""
 		}
 		for i := range reqs {
-			switch r.IntN(6) {
+			switch r.IntN(8) {
+			case 6:
+				// the obsolete HTTP date forms are as valid as the preferred one (RFC 9110 section 5.6.7)
+				reqs[i].Hdr = append(reqs[i].Hdr, [2]string{"If-Modified-Since", "Friday, 01-Jan-99 00:00:00 GMT"})
+			case 7:
+				reqs[i].Hdr = append(reqs[i].Hdr, [2]string{"If-Modified-Since", "Fri Jan  1 00:00:00 1999"})
 			case 0:
 				reqs[i].Hdr = append(reqs[i].Hdr, [2]string{"If-None-Match", `"client-marker-1"`})
 			case 1:
@@ -184,6 +189,19 @@ func genSeqPlan(r *rand.Rand, focus string) *ProxyPlan {
 			reqs[i].ReadChunk = []int{100, 4096}[r.IntN(2)]
 		}
 	}
+	retrySwitch := false
+	if r.IntN(5) == 0 && (res.Status == 0 || res.Status == 200) {
+		// an origin that refuses ranges: the proxy's retry without Range stores (or relays) a second
+		// answer whose own headers decide, and the retry switch decides whether there is one
+		res.RangeMode = "416"
+		res.Hdr416 = []string{"", "none", "no-store", "max-age=3600"}[r.IntN(4)]
+		p.Retry416 = r.IntN(3) != 0
+		k := r.IntN(len(reqs))
+		if reqs[k].Method == "" && len(reqs[k].Hdr) == 0 {
+			reqs[k].Range = []string{"bytes=0-4", "bytes=2-", "bytes=-3"}[r.IntN(3)]
+		}
+		retrySwitch = r.IntN(2) == 0
+	}
 	if focus != "c06" && r.IntN(4) == 0 && len(reqs) >= 2 {
 		// the operator changes the cache policy while the proxy is running
 		docs := []string{
@@ -195,6 +213,11 @@ func genSeqPlan(r *rand.Rand, focus string) *ProxyPlan {
 		at := 1 + r.IntN(len(reqs)-1)
 		op := PReq{Cfg: docs[r.IntN(len(docs))], AtMs: reqs[at].AtMs}
 		reqs = append(reqs[:at], append([]PReq{op}, reqs[at:]...)...)
+	}
+	if retrySwitch {
+		// the operator flips the retry switch before the first request
+		op := PReq{Cfg: []string{`{"proxy":{"retry_on_range_416":true}}`, `{"proxy":{"retry_on_range_416":false}}`}[r.IntN(2)]}
+		reqs = append([]PReq{op}, reqs...)
 	}
 	p.Res = []PRes{res}
 	p.Clients = [][]PReq{reqs}
